@@ -336,7 +336,7 @@ LATCH_ENSURES = [
 ]
 
 PULL_ENSURES = [
-    C('C12.select.update_silence_pull.touches_only_pull_fields',
+    C('C01+C12.select.update_silence_pull.touches_only_pull_fields',
       '''old(self).same_acct(final(self)) && final(self).same_cfg_cache(old(self))
             && final(self).stall_latched_since_ms == old(self).stall_latched_since_ms && final(self).stall_recovery_since_ms == old(self).stall_recovery_since_ms
             && final(self).stall_gate_events == old(self).stall_gate_events'''),
@@ -355,7 +355,7 @@ PULL_ENSURES = [
 RESET_CORE_ENSURES = [
     'final(self).quality_cache == old(self).quality_cache',
     C('C06+C08.acct.reset_core_state.window_back_to_20000', 'final(self).window == 20000'),
-    C('C02+C08.acct.reset_core_state.nothing_in_flight', 'final(self).in_flight_packets == 0 && final(self).packet_log@.len() == 0 && final(self).highest_acked_seq == i32::MIN'),
+    C('C02+C05+C08.acct.reset_core_state.nothing_in_flight', 'final(self).in_flight_packets == 0 && final(self).packet_log@.len() == 0 && final(self).highest_acked_seq == i32::MIN'),
     C('C07+C08.acct.reset_core_state.back_to_registering', '!final(self).connected && final(self).phase is Registering'),
     C('C13.acct.reset_core_state.clears_stall_state', '''final(self).last_ack_or_rtt_sample_ms == 0 && !final(self).stall_gated && final(self).stall_latched_since_ms == 0
             && final(self).stall_recovery_since_ms == 0 && !final(self).silence_pulled && final(self).stall_probe_counter == 0'''),
@@ -370,7 +370,7 @@ RESET_CORE_ENSURES = [
 def RESET_CORE_ENSURES_PUBLIC(who):
     return [
         C('C06+C08.acct.%s.window_back_to_20000' % who, 'final(self).window == 20000'),
-        C('C02+C08.acct.%s.nothing_in_flight' % who, 'final(self).in_flight_packets == 0 && final(self).packet_log@.len() == 0 && final(self).highest_acked_seq == i32::MIN'),
+        C('C02+C05+C08.acct.%s.nothing_in_flight' % who, 'final(self).in_flight_packets == 0 && final(self).packet_log@.len() == 0 && final(self).highest_acked_seq == i32::MIN'),
         C('C07+C08.acct.%s.back_to_registering' % who, '!final(self).connected && final(self).phase is Registering'),
         C('C13.acct.%s.clears_stall_state' % who, '''final(self).last_ack_or_rtt_sample_ms == 0 && !final(self).stall_gated && final(self).stall_latched_since_ms == 0
             && final(self).stall_recovery_since_ms == 0 && !final(self).silence_pulled'''),
